@@ -473,7 +473,13 @@ func (vm *VirtualMachine) eval(ctx context.Context) error {
 			for i := uint16(0); i < count; i++ {
 				items[i] = vm.pop()
 			}
-			vm.push(object.NewSet(items))
+			set := object.NewSet(items)
+			if err, ok := set.(*object.Error); ok {
+				// An unhashable item: raise the error, as every other
+				// operation on such an item does
+				return err.Value()
+			}
+			vm.push(set)
 		case op.BinarySubscr:
 			idx := vm.pop()
 			lhs := vm.pop()
